@@ -13,11 +13,11 @@ import (
 )
 
 type codecOp struct {
-	Kind  string // Int, Int32, Ints, Bytes
-	Field string // field path touched ("" if unknown)
-	Width int64  // constant width in bytes, -1 variable
-	Count int64  // element count for Ints (constant) or -1
-	Put   bool   // encoder-side operation
+	Kind  string    // Int, Int32, Ints, Bytes
+	Field string    // field path touched ("" if unknown)
+	Width int64     // constant width in bytes, -1 variable
+	Count int64     // element count for Ints (constant) or -1
+	Put   bool      // encoder-side operation
 	Src   ssa.Value // encoder side: the value written
 	Sym   string    // encoder side: normal form of the value written (helpers and composite literals seen through)
 	Pos   token.Pos
